@@ -17,6 +17,10 @@ func init() { register("c15", runC15) }
 type leaseCall struct {
 	lease   bool // false: ReturnTable
 	expired bool // lease duration already over
+	// delTable: not a lease call at all - the node deletes (and creates again) the TABLE, as reconciliation does when the
+	// leader dropped and re-created it; the lease record is none of its business.  No model action: the lease protocol
+	// has no such step.
+	delTable bool
 }
 
 // enumerate all interleavings of per-actor operation counts is not possible up front (a call has one or two
@@ -40,6 +44,12 @@ func runLeaseSchedule(scripts map[int][]leaseCall, choose func(parked []int, ste
 		a := a
 		sch.start(a, func(done func(string)) {
 			for _, c := range scripts[a] {
+				if c.delTable {
+					_ = mgr[a].DeleteTable("tab")
+					_, _ = mgr[a].VerifCreateTable("tab")
+					done("table-recreated")
+					continue
+				}
 				if c.lease {
 					d := time.Hour
 					if c.expired {
@@ -66,6 +76,8 @@ func runLeaseSchedule(scripts map[int][]leaseCall, choose func(parked []int, ste
 		})
 	}
 	holders := map[int]bool{} // ghost: unexpired, unreturned successful leases
+	recordOf := 0             // ghost: the node whose lease is in the store's record (0: none)
+	foreignReturn := ""
 	holdersOK = true
 	pendingKind := map[int]leaseCall{}
 	onDone := func(actor int, result string) {
@@ -81,6 +93,14 @@ func runLeaseSchedule(scripts map[int][]leaseCall, choose func(parked []int, ste
 			}
 		case "returned-true":
 			delete(holders, actor)
+			// returning a lease only ever removes the caller's own lease
+			if recordOf != actor {
+				foreignReturn = fmt.Sprintf("node %d's ReturnTable removed the lease record written by node %d", actor, recordOf)
+			}
+			recordOf = 0
+		}
+		if result == "acquired" {
+			recordOf = actor
 		}
 		if len(holders) > 1 {
 			holdersOK = false
@@ -99,6 +119,11 @@ func runLeaseSchedule(scripts map[int][]leaseCall, choose func(parked []int, ste
 		ev := sch.waiting[a]
 		c := scripts[a][callIdx[a]]
 		pendingKind[a] = c
+		if c.delTable {
+			trace = append(trace, fmt.Sprintf("n%d.table-%s", a, ev.op))
+			sch.release(a)
+			continue
+		}
 		switch ev.op {
 		case "get":
 			if c.lease {
@@ -149,8 +174,12 @@ func runLeaseSchedule(scripts map[int][]leaseCall, choose func(parked []int, ste
 			finalHolder = fmt.Sprint(l.ID)
 		}
 	}
+	lastForeignReturn = foreignReturn
 	return acts, results, holdersOK, trace, finalHolder, nil
 }
+
+// lastForeignReturn: set by runLeaseSchedule when a ReturnTable removed another node's lease record.
+var lastForeignReturn string
 
 func runC15(args []string) error {
 	rf, err := parseFlags("c15", args, nil)
@@ -159,7 +188,7 @@ func runC15(args []string) error {
 	}
 	r := rf.rng()
 	sum := &Summary{Engine: "c15", Seed: rf.Seed,
-		Rule: "real table.Manager.LeaseTable/ReturnTable for 2-3 managers (node ids) over one metadata store with the real kv.LFSM compare-and-set semantics, every store operation released by a scheduler (two waiting writes optionally committed together, i.e. applied by ONE LFSM.Update call): ALL interleavings of two calls (lease/lease, lease/return, with long and already-expired durations; also after a lease that was taken and returned, so that a record re-appears under the same key) enumerated, plus seeded random schedules of 2-3 nodes x 1-4 calls; oracle: at no point two nodes with a granted, unreturned, unexpired lease; observed: every call's outcome in completion order and the final holder; plus real replication workers (lease routine) of 2-3 nodes over a metadata shard with per-node replicas, competing and with the holder cut off: never two workers with the leased flag set; distinct = distinct (scripts, schedule); non-trivial = both nodes' operations interleave inside a call"}
+		Rule: "real table.Manager.LeaseTable/ReturnTable for 2-3 managers (node ids) over one metadata store with the real kv.LFSM compare-and-set semantics, every store operation released by a scheduler (two waiting writes optionally committed together, i.e. applied by ONE LFSM.Update call): ALL interleavings of two calls (lease/lease, lease/return, with long and already-expired durations; also after a lease that was taken and returned, so that a record re-appears under the same key) enumerated, plus seeded random schedules of 2-3 nodes x 1-4 calls; oracle: at no point two nodes with a granted, unreturned, unexpired lease, and a successful return only by the node whose lease is in the record (calls that delete and re-create the TABLE are mixed in: the lease is none of their business); observed: every call's outcome in completion order and the final holder; plus real replication workers (lease routine) of 2-3 nodes over a metadata shard with per-node replicas, competing and with the holder cut off: never two workers with the leased flag set; distinct = distinct (scripts, schedule); non-trivial = both nodes' operations interleave inside a call"}
 	cf := &CasesFile{Requires: []string{"Model.Bytes", "Model.Obs", "Model.Lease", "Run.C15Run"}, CaseType: "c15case", Check: "c15_check", Show: "c15_model"}
 	hk := sum.hist("schedules")
 	seen := map[string]bool{}
@@ -219,6 +248,9 @@ func runC15(args []string) error {
 		if !ok {
 			sum.violate(sum.Evaluations, "two nodes hold an unexpired replication lease at the same time", map[string]any{"schedule": d}, nil)
 		}
+		if lastForeignReturn != "" {
+			sum.violate(sum.Evaluations, "returning a lease removed another node's lease", map[string]any{"schedule": d}, lastForeignReturn)
+		}
 		return nil
 	}
 	// exhaustive: two nodes, one or two calls each, every choice sequence of length <= 8 over 2 parked actors
@@ -246,6 +278,10 @@ func runC15(args []string) error {
 		for a := 1; a <= 2+r.Intn(2); a++ {
 			var cs []leaseCall
 			for j := 0; j < 1+r.Intn(4); j++ {
+				if r.Intn(8) == 0 {
+					cs = append(cs, leaseCall{delTable: true})
+					continue
+				}
 				cs = append(cs, leaseCall{lease: r.Intn(4) != 0, expired: r.Intn(3) == 0})
 			}
 			scripts[a] = cs
